@@ -201,6 +201,7 @@ pub fn hash_on_placement(pcs: [[u64; 6]; 2]) {
     #[cfg(test)] println!("REPLAY-CASE {{\"fen\":\"{}\"}}", pos::fen_of(&p));
     let g = pos::game_of(&p);
     assert!(zobrist::hash(&g).0 == xor_sum(&p));
+    kani::cover!(true);
     kani::cover!(p.ep < 64);
     std::mem::forget(g);
 }
